@@ -30,7 +30,9 @@ RULE = ("histories of lifecycle calls (setup / iterate / iterate_n(k) / run(0|1 
         "also random up to length 40), two objects with non-overlapping live intervals, two objects with overlapping ones, calls on "
         "a released engine, iterate_n(k<=0) after completion, one RDScript object (quantity unit mol / µmol) set up on two engine objects "
         "and again on the first, another engine object (never set up / finalized / temporary) garbage-collected while one is mid-run, "
-        "output fetched, the returned object modified by the caller, output fetched again; three runs mixing grid and graph with the middle one abandoned; "
+        "output fetched, the returned object modified by the caller, output fetched again; scripts with large molecule numbers (odd cell amounts in "
+        "2^24..2^31, 2^31..2^32, 2^32..2^36, or cells below 2^30 whose species total passes 2^31; every initial-state policy; rate constants scaled "
+        "so that Poisson means stay small) in fresh processes and mixed with ordinary ones in one process; three runs mixing grid and graph with the middle one abandoned; "
         "fixed-step runs landing exactly on t_max polled with is_complete(); "
         "simulate_script on a run of ~2 s, run(ms) slices timed on a simulation with 10^9 steps left, "
         "iterate_n(k) with k around and at multiples of 1024; scripts: 3 engines x grid/graph x 4 policies incl. species totals "
@@ -39,6 +41,9 @@ ASSUMPTIONS = [
     "a call that prints nothing for 6 s (quick) on these tiny systems is a hang (reference runs take milliseconds)",
     "calls on a released engine (between finalize() and the next setup()) are part of the histories: they must return at once",
     "run(ms): the number of iterations it performed is read off the native clock after the call (wall-clock dependent)",
+    "large molecule numbers (cell amounts / species totals up to 2^36 and beyond 2^31): rate constants and diffusion coefficients are scaled so "
+    "that every Poisson mean (tau-leap channel, init_state_processing='Poisson' cell) stays below 2^31 — std::poisson_distribution<int> does "
+    "not return beyond that (recorded size assumption, repaired separately)",
 ]
 TRUSTED = ["life_child.py (sandboxed driver of the real engine)", "reference state machine in this file (written from the property)"]
 
@@ -49,11 +54,77 @@ KEY_SLICE = "run-slice-overrun"
 KEY_GC = "gc-of-another-engine-object-disturbs-the-run"
 SLICE_MARGIN = 1.0      # seconds beyond the requested slice (one iteration of these systems takes microseconds)
 
+# ---------------------------------------------------------------------------------------------
+# large molecule numbers: amounts per cell and species totals beyond 2^24 (float mantissa), 2^31 (C int), 2^32 (unsigned)
+# ---------------------------------------------------------------------------------------------
+# (name, lowest exponent, highest exponent): a cell amount is an ODD whole number in [2^lo, 2^hi)
+BIG_BANDS = [("2^24..2^31", 24, 30), ("2^31..2^32", 31, 32), ("2^32..2^36", 32, 36)]
+BIG_CHANNEL_MEAN = 20.0      # propensity (per unit of time) every reaction / diffusion channel is scaled down to: the Poisson
+                             # means of a tau-leap step (propensity * dt, dt <= 1) stay far below 2^31 (size assumption of
+                             # std::poisson_distribution<int>, a known defect repaired separately; DESIGN §4)
+
+
+def _side_order(side):
+    n = 0
+    for term in side.split("+"):
+        tok = term.split()
+        if not tok:
+            continue
+        n += int(tok[0]) if len(tok) == 2 else 1
+    return n
+
+
+def _scale(v, f):
+    return {k: x * f for k, x in v.items()} if isinstance(v, dict) else v * f
+
+
+def magnify(rng, S, info, band, sum_only=False):
+    """turn a generated (valid) script into one of the class "large molecule numbers": the amounts of ONE species (sometimes
+    of every species) become odd whole numbers of the band; with `sum_only` every single cell stays below 2^30 and only the
+    species TOTAL passes 2^31 (needs >= 3 cells, otherwise falls back to the band).  Rate constants and diffusion
+    coefficients are scaled down by the amount to the power of the reaction order, so that every channel's propensity is
+    about BIG_CHANNEL_MEAN at most."""
+    sysd = S["system"]
+    nsp, n = info["nsp"], info["n"]
+    name, lo, hi = band
+    M = 1.0
+    state = list(sysd["state"])
+    which = [rng.randrange(nsp)] if rng.random() < 0.7 else list(range(nsp))
+    mode = S["kw"].get("init_state_processing")
+    for s in which:
+        if sum_only and n >= 3:
+            vals = [float(rng.randrange(2 ** 29, 2 ** 30) | 1) for _ in range(n)]     # n >= 3 cells of >= 2^29: total >= 2^31
+            name = "cells<2^30,total>=2^31"
+        elif mode == "Poisson":
+            # one Poisson draw per cell with the amount as mean: keep every cell below 2^30 (size assumption, see above)
+            vals = [float(rng.randrange(2 ** 24, 2 ** 30) | 1) for _ in range(n)]
+            name = "2^24..2^30(Poisson)"
+        else:
+            vals = [float(rng.randrange(2 ** lo, 2 ** hi) | 1) for _ in range(n)]
+            if n > 1 and rng.random() < 0.4:
+                vals[rng.randrange(n)] = float(rng.choice([0, 1, 7]))      # an (almost) empty cell next to the full ones
+        state[s * n:(s + 1) * n] = vals
+        M = max(M, max(vals))
+    sysd["state"] = state
+    for r in sysd["network"]["reactions"]:
+        lhs, _, rhs = r["eq"].partition("->")
+        r["k+"] = _scale(r["k+"], BIG_CHANNEL_MEAN / M ** _side_order(lhs))
+        if "k-" in r:
+            r["k-"] = _scale(r["k-"], BIG_CHANNEL_MEAN / M ** _side_order(rhs))
+        else:
+            r["k-"] = 0          # (the default reverse rate constant is not scaled by anyone: state it)
+    for sp in sysd["network"]["species"]:
+        if "D" in sp:
+            sp["D"] = _scale(sp["D"], BIG_CHANNEL_MEAN / M)
+    totals = [sum(state[s * n:(s + 1) * n]) for s in range(nsp)]
+    info.update(big=name, big_total=max(totals), big_cell=M)
+    return S, info
+
 
 # ---------------------------------------------------------------------------------------------
 # script pool with fresh-process references
 # ---------------------------------------------------------------------------------------------
-def make_pool(ctx, n, kind="plain", degenerate=False):
+def make_pool(ctx, n, kind="plain", degenerate=False, n_big=0):
     rng = ctx.rng
     pool = []
     for i in range(n):
@@ -70,6 +141,21 @@ def make_pool(ctx, n, kind="plain", degenerate=False):
                                 degenerate=(degenerate and rng.random() < 0.7))
         info["sub_molecule"] = sub
         pool.append({"S": S, "info": info, "option": option, "idx": i})
+    # large molecule numbers (see magnify): the stochastic engines under every initial-state policy (redistribution "auto" /
+    # "redist" first: its loop counts whole molecules), Euler too ("redist" / "Poisson" process its state as well); the three
+    # bands by turns, and species whose TOTAL only passes 2^31
+    for b in range(n_big):
+        option = ["tauleap", "gillespie", "tauleap", "gillespie", "euler"][b % 5]
+        mode = ["auto", "redist", "redist", "auto", "redist", "none", "Poisson", "none", "auto", "Poisson"][b % 10]
+        if option == "euler" and rng.random() < 0.5:
+            mode = rng.choice(["none", "auto"])
+        S, info = lc.gen_script(rng, option, max_steps=12 if option != "gillespie" else 6, mode=mode, units=rng.random() < 0.3,
+                                zero_tmax=False, degenerate=(degenerate and rng.random() < 0.5),
+                                space_kind=("grid" if b % 4 == 3 else None))
+        band = BIG_BANDS[(1, 2, 1, 0)[b % 4]] if not (mode == "none" and rng.random() < 0.5) else BIG_BANDS[0]
+        S, info = magnify(rng, S, info, band, sum_only=(b % 4 == 3))
+        info["sub_molecule"] = False
+        pool.append({"S": S, "info": info, "option": option, "idx": n + b})
     jobs = []
     for p in pool:
         size = p["info"]["nsp"] * p["info"]["n"]
@@ -86,13 +172,19 @@ def make_pool(ctx, n, kind="plain", degenerate=False):
         ctx.count("ref_runs")
         if p["info"]["sub_molecule"]:
             ctx.count("ref_sub_molecule")
+        big = p["info"].get("big")
+        if big:
+            ctx.count("ref_big_" + big)
+            ctx.count("ref_big_total%s2^31_%s" % (">=" if p["info"]["big_total"] >= 2 ** 31 else "<", p["info"]["mode"]))
         if r["status"] != "ok":
             at = r["at"]
             call = j["calls"][at]["call"] if at is not None and at < len(j["calls"]) else "?"
             what = "hang" if r["status"] == "timeout" else "crash"
             ctx.case(("ref", p["idx"]), nontrivial=True)
-            ctx.violation("%s:%s%s" % (what, call, ":sub-molecule" if p["info"]["sub_molecule"] else ""),
-                          "%s of %s() on a valid script in a fresh process (%s)" % (what, call, r["status"]), case,
+            ctx.violation("%s:%s%s" % (what, call, ":sub-molecule" if p["info"]["sub_molecule"] else (":large-amounts" if big else "")),
+                          "%s of %s() on a valid script in a fresh process (%s)%s" % (what, call, r["status"],
+                          "; molecule numbers per cell up to %.17g, largest species total %.17g, init_state_processing %s"
+                          % (p["info"]["big_cell"], p["info"]["big_total"], p["info"]["mode"]) if big else ""), case,
                           impl={"status": r["status"], "at": at, "stderr": r.get("stderr", "")[-300:]}, expected="every call returns")
             continue
         rr = r["results"]
@@ -157,7 +249,7 @@ def rand_call(rng, obj, live, pool_opt, scripts, allow_zero_n=False):
 
 
 def gen_history(rng, hid, cls, pool_by_opt, length):
-    """cls: one | blocks | overlap | uaf | itn0 | shared | gc | refetch | abandon | tie"""
+    """cls: one | blocks | overlap | uaf | itn0 | shared | gc | refetch | abandon | tie | big"""
     opts = [o for o in lc.OPTIONS if pool_by_opt.get(o)]
     nobj = 2 if cls in ("blocks", "overlap", "shared", "gc") else 1
     engines = [rng.choice(opts) for _ in range(nobj)]
@@ -261,6 +353,27 @@ def gen_history(rng, hid, cls, pool_by_opt, length):
             if f:
                 calls.append({"obj": 0, "call": "finalize"})
         calls += [{"obj": 0, "call": "iterate_n", "n": 1000, "peek": True}, {"obj": 0, "call": "get_output"}, {"obj": 0, "call": "finalize"}, {"obj": 0, "call": "finalize"}]
+    elif cls == "big":
+        # simulations in ONE process that differ in the magnitude of the molecule numbers (2^31 and more / ordinary), on one
+        # engine object: large, ordinary, large again (or the mirror), the middle one sometimes abandoned — every set-up
+        # returns and behaves like the fresh-process run of its script
+        bigs = [p for o in opts for p in pool_by_opt[o] if p["info"].get("big")]
+        p0 = rng.choice(bigs) if bigs else rng.choice(pool_by_opt[engines[0]])
+        engines = [p0["option"]]
+        small = [p for p in pool_by_opt[engines[0]] if not p["info"].get("big")] or [p0]
+        same = [p for p in bigs if p["option"] == engines[0]] or [p0]
+        order = rng.choice([[p0, rng.choice(small), rng.choice(same)], [rng.choice(small), p0, rng.choice(small)], [p0, rng.choice(same)]])
+        for j, p in enumerate(order):
+            scripts.setdefault(p["idx"], len(scripts))
+            calls.append({"obj": 0, "call": "setup", "script": scripts[p["idx"]], "pool": p["idx"], "peek": True})
+            calls.append({"obj": 0, "call": "is_complete"})
+            for _ in range(rng.randint(0, 2)):
+                calls.append({"obj": 0, "call": rng.choice(["iterate", "iterate", "get_progress"]), "peek": True})
+            calls.append(rng.choice([{"obj": 0, "call": "iterate_n", "n": rng.choice([2, 1000, 1024]), "peek": True}, {"obj": 0, "call": "run", "ms": 1, "peek": True}]))
+            calls += [{"obj": 0, "call": "get_output"}, {"obj": 0, "call": "get_output"}]
+            if j != 1 or rng.random() < 0.5:
+                calls.append({"obj": 0, "call": "finalize"})
+        calls += [{"obj": 0, "call": "finalize"}, {"obj": 0, "call": "finalize"}]
     elif cls == "tie":
         # a fixed-step run whose clock lands exactly on t_max, polled with is_complete() between the iterations: the status is
         # the one the loop calls returned (not complete at t == t_max; one more step follows)
@@ -510,10 +623,10 @@ def _limit_per_key(ctx, per_key=3):
 def run(ctx):
     _limit_per_key(ctx)
     ctx.notes.append("every_call_returns: total except for two explicit hypotheses (Setup.initReturns = C14 redistribution loop terminates; Setup.stepReturns = poisson_distribution<int> returns, size assumption); "
-                     "both are observed with time-outs here")
+                     "both are observed with time-outs here, also for species totals / cell amounts beyond 2^31 (the redistribution loop counts whole molecules)")
     ctx.notes.append("independent_partial: holds for non-overlapping live intervals; the full statement is proved false (not_independent, "
                      "independent_is_false) = known finding two-engines-share-native")
-    explore(ctx, ctx.n(45, 900), ctx.n(300, 20000))
+    explore(ctx, ctx.n(45, 900), ctx.n(300, 20000), n_big=ctx.n(10, 120))
     long_simulate(ctx, ctx.n(1, 4), 1.9 if ctx.tier == "quick" else 2.6)
     # the runner starts the failing-input search only when NO violation was reported; this check always reports the listed
     # known finding, so it starts the search itself when something is broken and nothing unlisted was found
@@ -635,14 +748,14 @@ def search(ctx):
     while ctx.time_left() > 25 and not _unlisted(ctx) and rounds < 20:
         kind = "hard" if rounds % 2 == 0 else "plain"
         ctx.count("search_rounds")
-        explore(ctx, 40, 500, kind=kind, degenerate=True, long_histories=True, with_model=False)
+        explore(ctx, 40, 500, kind=kind, degenerate=True, long_histories=True, with_model=False, n_big=20)
         rounds += 1
     ctx.notes.append("search(): %d extra rounds of 500 histories (hard / plain builds, degenerate shapes, lengths up to 40)" % rounds)
 
 
-def explore(ctx, n_pool, n_hist, kind="plain", degenerate=False, long_histories=False, with_model=True):
+def explore(ctx, n_pool, n_hist, kind="plain", degenerate=False, long_histories=False, with_model=True, n_big=0):
     rng = ctx.rng
-    pool = make_pool(ctx, n_pool, kind=kind, degenerate=degenerate)
+    pool = make_pool(ctx, n_pool, kind=kind, degenerate=degenerate, n_big=n_big)
     pool_by_idx = {p["idx"]: p for p in pool}
     pool_by_opt = {}
     for p in pool:
@@ -669,6 +782,10 @@ def explore(ctx, n_pool, n_hist, kind="plain", degenerate=False, long_histories=
             cls = "abandon"
         elif i in (16, 17, 18):
             cls = "tie"
+        elif n_big and i in (19, 20, 21, 22):
+            cls = "big"
+        elif n_big and 0.2 <= r < 0.23:
+            cls = "big"
         elif r >= 0.1 and r < 0.2:
             cls = ["refetch", "abandon", "tie"][i % 3]
         elif r < 0.1 and r >= 0.05:
